@@ -114,3 +114,23 @@ pub fn do_load(bytes: &[u8]) -> String {
     });
     r.unwrap_or_else(|_| "PANIC".into())
 }
+
+fn hexs(s: &str) -> String {
+    if s.is_empty() { "-".into() } else { s.bytes().map(|b| format!("{:02x}", b)).collect() }
+}
+
+/// what the library gives for a file content: disassembly of the loaded module, or the error's Display text
+pub fn do_libdis(bytes: &[u8]) -> String {
+    use rspirv::binary::Disassemble;
+    let r = std::panic::catch_unwind(|| match dr::load_bytes(bytes) {
+        Ok(m) => match std::panic::catch_unwind(|| m.disassemble()) {
+            Ok(t) => {
+                let a = std::panic::catch_unwind(|| m.assemble().len());
+                format!("OK:{} asm={}", hexs(&t), a.map(|n| n.to_string()).unwrap_or("PANIC".into()))
+            }
+            Err(_) => "PANIC:disassemble".into(),
+        },
+        Err(e) => format!("ERR:{}", hexs(&e.to_string())),
+    });
+    r.unwrap_or_else(|_| "PANIC:load".into())
+}
